@@ -1116,6 +1116,7 @@ func runHistory(c *hx.Ctx, r *hx.Rng, idx int, workers int, thorough bool) error
 				}
 			}
 			checkMeta(c, sh, mst, spec, rmeta, fmt.Sprintf("history %d after %s (%s, %d chunk metas per block)", idx, name, k.String(), blockLimit), metaSeen, w, metaRanges)
+			checkStats(c, sh, mst, fmt.Sprintf("history %d after %s (%s)", idx, name, k.String()))
 		}
 		rc.mu.Lock()
 		ros := rc.reorgs[first:]
@@ -1465,6 +1466,22 @@ func Run(c *hx.Ctx) error {
 			}
 		}
 		if part == "colstore" {
+			return nil
+		}
+	}
+	// the per-column statistics the writers store: audit against the rows
+	nStats := 3
+	if thorough {
+		nStats = 24
+	}
+	if part := c.Arg("part", ""); part == "" || part == "stats" {
+		rst := hx.NewRng(c.Seed ^ 0x7374617473)
+		for i := 0; i < nStats; i++ {
+			if err := runStatsHistory(c, rst.Fork(), i, thorough); err != nil {
+				return err
+			}
+		}
+		if part == "stats" {
 			return nil
 		}
 	}
